@@ -427,5 +427,23 @@ func cmdC17(o opts) {
 		}
 		rec.Put(M{"e": "DINIT", "case": c.name, "defs": defs, "init_ok": ok, "panic": pan, "probes": probes})
 	}
+	// one Dialect VALUE edited in place between initialisations (an application that assembles its dialect step by step,
+	// a test that swaps a message): every Initialize judges the value as it is then - nothing remembered from an earlier
+	// initialisation of the same pointer may stand in for it. Same number of messages at every step.
+	shared := &dialect.Dialect{Version: 3, Messages: []message.Message{&MessageGoodOne{}, &MessageUserScalars{}}}
+	for k, second := range []message.Message{&MessageUserScalars{}, &MessageGoodDup{}, &MessageBadType{}, &MessageUserScalars{},
+		&MessageBadLate{}, &MessageUserHighId{}, &MessageGoodOne{}} {
+		if k%2 == 1 {
+			shared.Messages[1] = second
+		} else {
+			shared.Messages = []message.Message{shared.Messages[0], second}
+		}
+		defs := []DefJ{defOf(shared.Messages[0]), defOf(shared.Messages[1])}
+		for rep := 0; rep < 2; rep++ {
+			_, ok, pan := safeDialectInit(shared)
+			rec.Put(M{"e": "DINIT", "case": fmt.Sprintf("one_value_edited_in_place_step_%d_init_%d", k, rep), "defs": defs,
+				"init_ok": ok, "panic": pan, "probes": []M{}})
+		}
+	}
 	rec.Close()
 }
